@@ -32,6 +32,23 @@ pub enum Outcome {
     Partial,
 }
 
+/// Part of a reply of several datagrams: a non-empty subset that leaves at least one out, in the order
+/// sent (mostly just the first one, as when the rest of a burst is lost). Nothing for a reply of one.
+fn proper_subset(cx: &mut Cx, d: &[Vec<u8>]) -> Vec<Vec<u8>> {
+    if d.len() < 2 {
+        return Vec::new();
+    }
+    if cx.draw(2) == 0 {
+        return vec![d[0].clone()];
+    }
+    let left_out = cx.draw(d.len() as u64) as usize;
+    let mut out: Vec<Vec<u8>> = d.iter().enumerate().filter(|(i, _)| *i != left_out && cx.draw(2) == 0).map(|(_, x)| x.clone()).collect();
+    if out.is_empty() {
+        out.push(d[(left_out + 1) % d.len()].clone());
+    }
+    out
+}
+
 // ====================================================================== GS1
 
 #[derive(Clone, Debug)]
@@ -332,8 +349,8 @@ impl Server for Gs1Server {
             Outcome::Malformed => cx.udp_send(from, b"\\queryid\\a.b.c\\final\\".to_vec()),
             Outcome::Valid => send_ordered(cx, from, &self.datagrams.clone(), &self.order, &self.dup),
             Outcome::Partial => {
-                if self.datagrams.len() > 1 {
-                    cx.udp_send(from, self.datagrams[0].clone());
+                for d in proper_subset(cx, &self.datagrams.clone()) {
+                    cx.udp_send(from, d);
                 }
             }
         }
@@ -355,6 +372,7 @@ pub struct Gs2State {
     pub extras: Vec<(String, String)>,
     pub players: Vec<(String, u16, u16, u16)>,
     pub extra_player_field: bool,
+    pub extra_team_field: Option<Vec<String>>,
     pub teams: Vec<(String, u16)>,
 }
 
@@ -369,12 +387,12 @@ impl Gs2State {
     pub fn generate(t: &mut Tape, max_players: u64) -> Self {
         let np = gen::count(t, max_players);
         let nt = gen::count(t, 8);
-        let players: Vec<(String, u16, u16, u16)> = (0 .. np).map(|_| (gs_str1(t, 24), gen::u16_(t), gen::u16_(t), gen::u16_(t))).collect();
-        let teams: Vec<(String, u16)> = (0 .. nt).map(|_| (gs_str1(t, 16), gen::u16_(t))).collect();
+        let players: Vec<(String, u16, u16, u16)> = (0 .. np).map(|_| (gs_str(t, 24), gen::u16_(t), gen::u16_(t), gen::u16_(t))).collect();
+        let teams: Vec<(String, u16)> = (0 .. nt).map(|_| (gs_str(t, 16), gen::u16_(t))).collect();
         let listed = players.len() as u32;
         Self {
-            hostname: gs_str1(t, 60),
-            mapname: gs_str1(t, 30),
+            hostname: gs_str(t, 60),
+            mapname: gs_str(t, 30),
             password: (*t.pick(DATA, &["0", "1"])).to_string(),
             maxplayers: gen::u32_(t),
             numplayers: match t.draw(DATA, 4) {
@@ -384,12 +402,13 @@ impl Gs2State {
                 _ => Some(t.draw(DATA, listed as u64 + 1) as u32),
             },
             minplayers: (t.draw(DATA, 2) == 1).then(|| gen::u32_(t)),
-            extras: gen_extras(t, GS2_KNOWN, 20)
-                .into_iter()
-                .map(|(k, v)| (k, if v.is_empty() { "v".to_string() } else { v }))
-                .collect(),
+            // a variable may have an empty value (it is still a variable of the server)
+            extras: gen_extras(t, GS2_KNOWN, 20),
             players,
             extra_player_field: t.draw(DATA, 3) == 0,
+            // a column the client has no field for, last in the teams table: its cells may be empty, and the
+            // last of them is then the last byte of the datagram
+            extra_team_field: (t.draw(DATA, 4) == 0).then(|| (0 .. nt).map(|_| (*t.pick(DATA, &["", "", "red", "0"])).to_string()).collect()),
             teams,
         }
     }
@@ -446,10 +465,16 @@ impl Gs2State {
         if !self.teams.is_empty() {
             z(&mut o, "team_t");
             z(&mut o, "score_t");
+            if self.extra_team_field.is_some() {
+                z(&mut o, "color_t");
+            }
             o.push(0);
-            for (n, s) in &self.teams {
+            for (i, (n, s)) in self.teams.iter().enumerate() {
                 z(&mut o, n);
                 z(&mut o, &s.to_string());
+                if let Some(c) = &self.extra_team_field {
+                    z(&mut o, c.get(i).map(|x| x.as_str()).unwrap_or(""));
+                }
             }
         }
         o
@@ -567,6 +592,9 @@ pub struct Gs3State {
     pub jc2m: Option<Vec<(String, String, u16)>>,
     pub version: String,
     pub description: String,
+    /// per-player sections the response type has no member for: "pid_" (a name the client knows) and
+    /// "kills_" (one it does not); numeric values
+    pub extra_sections: bool,
 }
 
 const GS3_KNOWN: &[&str] = &[
@@ -604,10 +632,10 @@ impl Gs3State {
         });
         let listed = jc.as_ref().map_or(listed, |v| v.len() as u32);
         Self {
-            hostname: gs_str1(t, 60),
-            mapname: gs_str1(t, 30),
-            gametype: gs_str1(t, 20),
-            gamever: gs_str1(t, 12),
+            hostname: gs_str(t, 60),
+            mapname: gs_str(t, 30),
+            gametype: gs_str(t, 20),
+            gamever: gs_str(t, 12),
             password: gen_password(t),
             maxplayers: gen::u32_(t),
             numplayers: match t.draw(DATA, 4) {
@@ -618,17 +646,15 @@ impl Gs3State {
             },
             minplayers: (t.draw(DATA, 2) == 1).then(|| gen::u8_(t)),
             tournament: (t.draw(DATA, 2) == 1).then(|| (*t.pick(DATA, &["true", "false", "True"])).to_string()),
-            extras: gen_extras(t, GS3_KNOWN, 20)
-                .into_iter()
-                .map(|(k, v)| (k, if v.is_empty() { "v".to_string() } else { v }))
-                .collect(),
+            extras: gen_extras(t, GS3_KNOWN, 20),
             players: if jc2m { Vec::new() } else { players },
             teams: if jc2m { Vec::new() } else { (0 .. nt).map(|_| (gs_str1(t, 16), gen::i32_(t))).collect() },
             challenge,
             challenge_text,
             jc2m: jc,
-            version: gs_str1(t, 12),
-            description: gs_str1(t, 40),
+            version: gs_str(t, 12),
+            description: gs_str(t, 40),
+            extra_sections: t.draw(DATA, 4) == 0,
         }
     }
 
@@ -666,6 +692,10 @@ impl Gs3State {
             f.push((1, "team_", p.iter().map(|x| x.team.to_string()).collect()));
             f.push((1, "deaths_", p.iter().map(|x| x.deaths.to_string()).collect()));
             f.push((1, "skill_", p.iter().map(|x| x.skill.to_string()).collect()));
+            if self.extra_sections {
+                f.push((1, "pid_", p.iter().enumerate().map(|(i, _)| (1000 + i).to_string()).collect()));
+                f.push((1, "kills_", p.iter().map(|x| x.score.to_string()).collect()));
+            }
         }
         if !self.teams.is_empty() {
             f.push((2, "team_t", self.teams.iter().map(|x| x.0.clone()).collect()));
@@ -914,10 +944,10 @@ impl Server for Gs3Server {
                 self.data_requests += 1;
                 match self.data_outcomes.get(n).copied().unwrap_or(Outcome::Valid) {
                     Outcome::Partial => {
-                        // the first packet of several, then nothing
+                        // some of the packets of several (not all), then nothing
                         let d = self.datagrams(session);
-                        if d.len() > 1 {
-                            cx.udp_send(from, d[0].clone());
+                        for d in proper_subset(cx, &d) {
+                            cx.udp_send(from, d);
                         }
                     }
                     Outcome::Silent => {}
